@@ -186,7 +186,8 @@ def spellings():
     for k, e in enumerate(["nil", "true", "42", '"s"', "fvar", "T{}.M", "func() int { return 1 }", "GenericNew[int]", "T{}", "&T{}", "len", "print",
                            "fieldName", "ptrVar", "ch", "ifaceVal", "wire.NewSet", "wire.Build", "(NewInt)", "((NewInt))", "wire.NewSet()",
                            "wire.NewSet(wire.NewSet(NewInt))", "errors.New", "unsafe.Sizeof", "two", "struct{}{}", "G[int]{}", "new(T)", "NewInt()",
-                           "[]int{}", "SetA", "SetB", "SetC", "AliasSet"]):
+                           "[]int{}", "SetA", "SetB", "SetC", "AliasSet", "int(1)", "error(nil)", "make([]int, 1)", "string(rune(65))",
+                           "append([]int{}, 1)", "complex(1, 2)", "(new)(T)", "unsafe.Pointer(nil)"]):
         extra = "\nvar SetA, SetB = wire.NewSet(NewInt), wire.NewSet()\n\nvar SetC = SetA\n\nvar AliasSet wire.ProviderSet\n"
         add("build/%d" % k, inj("Init", "int", "wire.Build(NewInt, %s)" % e, extra=extra if "Set" in e else ""))
         if k < 12:
